@@ -224,6 +224,29 @@ def run(ck, prog, ctx):
         ida = params_of(pvn.of_operand(lb, at_.args[1]), lb.id)
         ck.ob("DOM", "link_%s_term/links" % stem, key == {2} and ida == {3}, "link_%s_term adds record `%s` to the term looked up by `%s`" % (stem, "/".join(lb.local_name(p) for p in ida), "/".join(lb.local_name(p) for p in key)), where=lb.where(at_.line))
 
+    # the term a record is linked to is looked up with the CHECKED accessor: an id that is not a term of this ontology is an error
+    # (the byte decoders rely on it: add_K_from_bytes hands over ids read from the input without validating them first)
+    how = {}
+    for K, (stem, plural, rec) in sorted(KINDS.items()):
+        lb = prog.body(B + "link_%s_term" % stem)
+        if lb is None:
+            continue
+        lk = set()
+        for bi, t in lb.calls():
+            r = t.callee.res or ""
+            if r.startswith("ontology::termarena::Arena::") and r.rsplit("::", 1)[-1] in ("get", "get_mut", "get_unchecked", "get_unchecked_mut") and len(t.args) == 2:
+                if params_of(pvn.of_operand(lb, t.args[1]), lb.id) & {2}:
+                    lk.add(r.rsplit("::", 1)[-1])
+        how[stem] = lk
+        if not lk:
+            ck.undecided("DOM", "link_%s_term/checked-lookup" % stem, "lookup of the term by `term_id` not recognised", where=lb.where())
+        else:
+            bad = sorted(m for m in lk if "unchecked" in m)
+            ck.ob("DOM", "link_%s_term/checked-lookup" % stem, not bad, "link_%s_term looks the term up with %s%s" % (stem, "/".join(sorted(lk)), "" if not bad else ": an id that is not in the ontology silently resolves to the arena's placeholder term instead of being reported (the record then lists a term that does not exist)"), where=lb.where())
+    if len(how) == 3 and all(how.values()):
+        same = len({frozenset(v) for v in how.values()}) == 1
+        ck.ob("DOM", "link_K_term/siblings-agree", same, "the three link_K_term functions look the term up %s" % ("the same way" if same else "differently: %s" % {k: sorted(v) for k, v in how.items()}))
+
     check_complete_iteration(ck, "DOM", prog, [B + "link_%s_term" % v[0] for v in KINDS.values()] + [B + ("add_genes_from_bytes" if k == "Gene" else "add_%s_from_bytes" % v[0]) for k, v in KINDS.items()], "the ancestors / the decoded records' terms")
 
     for K, (stem, plural, rec) in sorted(KINDS.items()):
